@@ -1,11 +1,11 @@
 SPECIFICATION Spec
 CONSTANTS
- K = 2
- MaxCalls = 3
- MaxDs <- MaxDs12
- Sigma <- SigmaTok
+ K = 3
+ MaxCalls = 1
+ MaxDs <- MaxDs2
+ Sigma <- SigmaByte
  Names <- NamesH
- Fills <- FillsQ
+ Fills <- FillsTwo
  EmitOn = TRUE
 VIEW View
 INVARIANTS NoOob CursorInside Latch NeutralWhenErr FreshAfterInit Work WorkLookup
